@@ -231,6 +231,24 @@ pub fn run_tostream_wake(body: &[Sexp]) -> String {
         drain();
         ON_WAKE.with(|w| *w.borrow_mut() = f);
       }
+      Sexp::Atom(a) if a == "poll0" => {
+        // somebody else polls once with a waker of its own (a lost select! arm, an expired timeout): from now on that
+        // waker is the registered one, until the consumer task polls again
+        if !finished.get() {
+          let other = futures::task::noop_waker();
+          let mut cx = Context::from_waker(&other);
+          let r = st.borrow_mut().as_mut().poll_next(&mut cx);
+          match r {
+            std::task::Poll::Pending => out.borrow_mut().push("pending0".into()),
+            std::task::Poll::Ready(Some(Ok(v))) => out.borrow_mut().push(format!("(item0 {})", showv(&v))),
+            std::task::Poll::Ready(Some(Err(e))) => out.borrow_mut().push(format!("(erritem0 {e})")),
+            std::task::Poll::Ready(None) => {
+              out.borrow_mut().push("end0".into());
+              finished.set(true);
+            }
+          }
+        }
+      }
       _ => emit(&subject, Ev::parse(l)),
     }
   }
